@@ -389,7 +389,7 @@ META = {
     "technique": "must-pass-through and branch-fact dominance on each backend's final afterParsing overrider (virtual overriders resolved from class facts); who-may-write for okl/validate; call-graph inventory (exact counts; the per-path rules identified by the guard structure that encloses each error report) and return-after-error path check for the rule functions",
     "level": "Static all-paths decision, for all seven backend parsers including those compiled but not buildable into devices here (CUDA, HIP, OpenCL, Metal, DPC++), that no transform runs on a kernel that "
              "did not pass kernelsAreValid (gate default-on, success tested before every transform), that validation is disabled only for the launcher clone, that the validator is the conjunction "
-             "of the rule functions over every kernel, and that every error report in a rule function is followed by the rejecting return on every path. The tests reject a handful of kernels on a few backends; "
+             "of the rule functions over every kernel, that every error report in a rule function is followed by the rejecting return on every path, and that a verdict computed in a loop over several items is accumulated, not overwritten. The tests reject a handful of kernels on a few backends; "
              "this covers every backend and every error site.",
     "note": "Does not decide that the rule predicates themselves accept exactly the valid kernels (value-level over ASTs). Trusted: clang AST/CFG, extractor, class-hierarchy resolution of final overriders.",
 }
